@@ -147,7 +147,7 @@ _ENVELOPES = [
     (('C01', 'C03', 'C09', 'C12', 'C13', 'C14', 'C15', 'C16', 'C17', 'C19'),
      ' Carrier.tla: integer-valued records in every container (int8..uint64, python ints, float32) at the magnitude levels TLC finds admissible from the dtype ranges (the largest one per container in the quick tier); each must give the result of the same values as float64; and double-precision records in other memory layouts / wrappers (read-only, big-endian, negative stride, column of a 2-D array, longdouble, list, masked array). TLC also proves the wrap-around mechanism of narrow carriers exact only when the samples are promoted first.'),
     (('C01', 'C09', 'C10', 'C12', 'C13', 'C14', 'C15', 'C16', 'C17', 'C19'),
-     ' Units.tla: the record multiplied by 2^e (|e| up to 900, double and single precision; TLC decides admissibility from the declared degree of the algorithm); each output must be 2^(degree*e) times the output for e = 0.'),
+     ' Units.tla: the record multiplied by 2^e (|e| up to 480, double and single precision; TLC decides admissibility from the declared degree of the algorithm, with a factor 2 of slack); each output must be 2^(degree*e) times the output for e = 0.'),
     (('C02', 'C13', 'C17', 'C19'),
      ' Quiet.tla: the same call with its diagnostics flag (verbose / show) and / or DEBUG logging must return the quiet result.'),
 ]
